@@ -84,7 +84,7 @@ def check(chk: Check) -> None:
     probe = cases(K.Wire(Interp(prog)))
     for ci in range(len(probe)):
         for integ, mod, parser in parsers:
-            for split_frames, prior in ((False, False), (True, False), (False, True)):
+            for split_frames, prior in ((False, False), (True, False), (False, True)) + ((("per-row", False), ("per-row", True), (True, True)) if chk.tier == "thorough" else ()):
                 cls_id, desc, phys = probe[ci][0], probe[ci][1], probe[ci][2]
 
                 def scenario(it: Interp) -> Any:
@@ -92,7 +92,9 @@ def check(chk: Check) -> None:
                     w = K.Wire(it)
                     _c, _d, ph, okw, before, offending, _h = cases(w)[ci]
                     head = [] if okw is None else [w.options_row(ph, 0, **okw)]
-                    if split_frames:
+                    if split_frames == "per-row":
+                        frames = [w.frame([r]) for r in head + before + offending]
+                    elif split_frames:
                         frames = [w.frame(head + before), w.frame(offending)] if (head or before) else [w.frame(offending)]
                     else:
                         frames = [w.frame(head + before + offending)]
@@ -123,7 +125,7 @@ def check(chk: Check) -> None:
                         return ("raised", it.exc_class_name(pr.exc), len(got), valid_before, pr.site)
                     return ("accepted", None, len(got), valid_before, [repr(x)[:200] for x in got[-2:]])
 
-                inst = f"{cls_id}: {desc} | {integ}.{parser} | {'offending row in a later frame' if split_frames else 'single frame'}{' | after parsing another stream in the same process' if prior else ''}"
+                inst = f"{cls_id}: {desc} | {integ}.{parser} | {('every row in a frame of its own' if split_frames == 'per-row' else 'offending row in a later frame') if split_frames else 'single frame'}{' | after parsing another stream in the same process' if prior else ''}"
                 for it, out in explore(prog, scenario, max_paths=16, generic_strings=True):
                     chk.paths += 1
                     chk.saw_functions(it)
